@@ -243,3 +243,33 @@ hx_an_rewrite(int32 an_id, int32 ann_tag, int32 ann_ref, const char *text, int32
     ANendaccess(id);
     return r;
 }
+
+/* attach (read) to a named vdata / vgroup of a file, for handle-safety programs (C13) */
+int32
+hx_vsattach_named(int32 f, const char *name)
+{
+    int32 ref = VSfind(f, name);
+    if (ref <= 0)
+        return FAIL;
+    return VSattach(f, ref, "r");
+}
+
+int32
+hx_vattach_named(int32 f, const char *name)
+{
+    int32 ref = Vfind(f, name);
+    if (ref <= 0)
+        return FAIL;
+    return Vattach(f, ref, "r");
+}
+
+/* start write access on an existing element and end it again (modifies nothing): tells whether the
+ * file handle really has write access */
+int32
+hx_probe_write_access(int32 f, int32 tag, int32 ref)
+{
+    int32 aid = Hstartaccess(f, (uint16)tag, (uint16)ref, DFACC_WRITE);
+    if (aid == FAIL)
+        return FAIL;
+    return Hendaccess(aid);
+}
